@@ -446,6 +446,9 @@ func (c *stepCheck) checkStop(hung bool) {
 					}
 				}
 			}
+			if strings.HasSuffix(disc, "worker-already-launched") {
+				c.racedLaunch = true
+			}
 			c.viol("C05", "start-after-stop", disc, "step %s attempt %d was started %v after the stop took effect (its state at that instant: %s)", r.Name, r.Attempt, spawnAt[r.Pid]-t0, c.statusAtStop[r.Name])
 			bump(c.out, "spawn_after_cancel")
 		}
@@ -602,6 +605,11 @@ func hangDisc(c *stepCheck, t0s uint64) string {
 	}
 	if kinds["ignore-child"] {
 		return "ignoring-child-involved"
+	}
+	if c.racedLaunch {
+		// the child launched by the check-then-act race is never signalled (its node was already
+		// relabelled canceled), so the run ends only when that child ends by itself
+		return "after-raced-launch"
 	}
 	if len(kinds) == 0 {
 		return "no-live-child"
